@@ -210,10 +210,11 @@ def check_trace(runner, tr, cfg, stats, counting_get):
                 present.append(x)
             else:
                 expired = x[2] is not None and x[2] <= now
-                vol_at_limit = any(pg + rec['obs'][1]['size'] >= cfg.size_limit - 10 ** 6 for pg in rec['vols']) if rec['vols'] else False
+                size_before = tr.calls[i - 1]['obs'][1]['size'] if i else 0
+                vol_at_limit = any(pg + max(size_before, rec['obs'][1]['size']) + 70000 >= cfg.size_limit for pg in rec['vols']) if rec['vols'] else False
                 if expired and op in ('set', 'add', 'incr', 'push', 'cull', 'pull', 'peek', 'peekitem'):
                     stats['lazy_expired'] += 1
-                elif at_limit_possible and rec['vols'] and op in ('set', 'add', 'incr', 'push', 'cull'):
+                elif at_limit_possible and vol_at_limit and op in ('set', 'add', 'incr', 'push', 'cull'):
                     stats['evicted'] += 1
                 else:
                     viol.append(('item_vanished:%s' % op, 'key %r disappeared during %s although it had not expired and no eviction was due' % (x[0], op), i))
